@@ -348,7 +348,8 @@ def run_address(case):
             keys = descref.child_keys(held, branch, index)
             hyp = "other"
             if isinstance(a, Rejected) or not a:
-                hyp = "rejected" + (f"-index{index}" if index in (0, MAXI) else "")
+                top = max(r["idx"] for r in recs) + branch
+                hyp = "rejected" + ("-index=2^31-1" if index == MAXI else "") + (f"-account={top}" if top >= MAXI - 1 else "")
             elif a == descref.segwit_v0_address(descref.HRP[w["net"]], descref.sha256(descref.multisig_script(m, keys))):
                 hyp = "children-in-record-order"
             elif a == descref.address(m, recs, 1 - branch, index):
@@ -435,7 +436,7 @@ def subst_wallets(tier, seed, real):
     s2 = ("1of2-mainnet-apos-acct2147483646", make_wallet(seed, "A", 1, 2, "mainnet", "max-1", "std", "apos"))
     s3 = ("2of3-testnet-mixedstyle-acct1", make_wallet(seed, "A", 2, 3, "testnet", "1", "std", "mixedstyle"))
     if real:
-        return [s1] if tier == "quick" else [s1, s2, s3]
+        return [s1] if tier == "quick" else [s1, s2]
     out = [s1, s2, s3]
     if tier == "thorough":
         out += [
@@ -558,6 +559,6 @@ def engines(tier, seed):
             run_subst(True),
             kind="E1",
             chunk=1,
-            rule="same sweep with the library untouched (no memoisation): the 1-of-1 descriptor in the quick tier, 1-of-1 + 1-of-2 + 2-of-3 in the thorough tier",
+            rule="same sweep with the library untouched (no memoisation): the 1-of-1 descriptor in the quick tier, 1-of-1 + 1-of-2 (10-digit account index) in the thorough tier",
         ),
     ]
